@@ -11,7 +11,7 @@ R10.4 routing pairs: left->(buf,2) right->(buf+1,2) mono->(buf,1) muted->NULL,
       selector bodies partition 0..streams+coupled-1.
 R10.5 creation guards dominate allocation / layout stores.
 """
-from .. import sx, cfg as cfgm, guards, templates as T
+from .. import decide, sx, cfg as cfgm, guards, templates as T
 from ..guards import K, I
 from ..facts import flatten
 from ..compdb import AnalysisBroken
@@ -47,6 +47,8 @@ def setup(rep, tier):
     rep.minimum('R10.4', 8)
     rep.minimum('R10.5', 8)
     rep.minimum('R10.6', 6)
+    rep.minimum('R10.7', 1)
+    rep.minimum('R10.8', 7)
 
 
 # ---------------------------------------------------------------- R10.1
@@ -531,7 +533,103 @@ def r10_6(rep, prog):
         rep.unresolved('R10.6', 'only %d channel-selector calls found' % n)
 
 
+# ------------------------------------------------------------------ R10.7 / R10.8
+def r10_7(rep, prog):
+    """encoder layout validation visits every stream id in its own role: left/right for ids [0, coupled),
+    mono for ids [coupled, streams).  Interval analysis of validate_encoder_layout partitioned over small
+    concrete (streams, coupled) pairs; the hull of the id passed at each call site is compared."""
+    from .. import absint
+    f = prog.fn('validate_encoder_layout')
+    rep.functions.add(f.name)
+    cg = cfgm.CFG(f)
+    kl = ('param', 0)
+    want = {'get_left_channel': 'coupled', 'get_right_channel': 'coupled', 'get_mono_channel': 'mono'}
+    sites = [(b, i, c) for b, i, c in T.calls_to(cg, tuple(want))]
+    inst = '%s:validate_encoder_layout asks every stream id for its channels in the right role' % prog.config
+    if len(sites) < 3:
+        rep.unresolved('R10.7', inst + ': only %d channel queries found' % len(sites))
+        return
+    bad = []
+    n = 0
+    for NS in range(1, 5):
+        for NC in range(0, NS + 1):
+            entry = {('field', kl, 'nb_streams'): absint.const(NS), ('field', kl, 'nb_coupled_streams'): absint.const(NC)}
+            an = absint.Analyzer(prog, f, entry_state=entry, call_summary=lambda *a, **k: None, havoc_fields_on_call=False)
+            for b, i, c in sites:
+                n += 1
+                role = want[sx.callee_name(c)]
+                exp = (0, NC - 1) if role == 'coupled' else (NC, NS - 1)
+                st = an.state_at(b, i)
+                if st is None:
+                    got = None
+                else:
+                    v = an.ev(c[2][1], st)
+                    got = None if not v else (absint.lo(v), absint.hi(v))
+                if exp[0] > exp[1]:
+                    if got is not None:
+                        bad.append((NS, NC, sx.callee_name(c), got, 'not reached'))
+                elif got != exp:
+                    bad.append((NS, NC, sx.callee_name(c), got, exp))
+    if bad:
+        b0 = bad[0]
+        rep.violated('R10.7', inst, f.where(), 'with %d streams of which %d coupled, %s is asked for stream ids %s, expected %s (%d of %d cases differ): some stream is accepted without an input channel' % (
+            b0[0], b0[1], b0[2], b0[3], b0[4], len(bad), n), key='validate-encoder-layout-ids')
+    else:
+        rep.holds('R10.7', inst, f.where(), '%d (streams, coupled, call site) cases' % n)
+
+
+def r10_8(rep, prog):
+    """a mapping matrix is stored column after column with ITS OWN row count as the stride: every subscript of
+    the data pointer of matrix M multiplies by M->rows (never by a channel / stream count, which is smaller
+    for the matrices that carry more rows than the layout uses)."""
+    n = 0
+    for f in prog.functions_all:
+        if not f.file.startswith('src/'):
+            continue
+        datap = {}
+        for lv, r in [(lv, r) for l in f.locals.values() for lv, r in decide.find_assign(f, l['name'])]:
+            rr = sx.strip(r)
+            if sx.kind(rr) == 'call' and sx.callee_name(rr) == 'mapping_matrix_get_data' and lv is not None and sx.kind(sx.strip(lv)) == 'local':
+                datap[sx.strip(lv)[2]] = sx.strip(rr[2][0])
+        if not datap:
+            continue
+        rep.functions.add(f.name)
+        cg = cfgm.CFG(f)
+        seen = set()
+        for b, i, s_ in cg.positions():
+            for x in sx.walk(s_):
+                if sx.kind(x) == 'idx' and sx.kind(sx.strip(x[1])) == 'local' and sx.strip(x[1])[2] in datap:
+                    M = datap[sx.strip(x[1])[2]]
+                    ix = sx.strip(x[2])
+                    if sx.kind(ix) == 'local':
+                        cur, defs = cfgm.defs_at(cg, ix[2], b, i)
+                        if len(cur) == 1 and defs[next(iter(cur))][2][0] == 'assign':
+                            ix = sx.strip(defs[next(iter(cur))][2][2])
+                    k = (sx.key(ix), sx.key(M))
+                    if k in seen:
+                        continue
+                    seen.add(k)
+                    strides = []
+                    for y in sx.walk(ix):
+                        if sx.kind(y) == 'bin' and y[1] == '*':
+                            strides += [sx.strip(y[2]), sx.strip(y[3])]
+                    if not strides:
+                        continue    # flat walk over the whole array (initialisation copy), not 2-D addressing
+                    n += 1
+                    ok = any(sx.kind(t) == 'field' and t[3] == 'rows' and sx.key(sx.strip(t[1])) == sx.key(M) for t in strides)
+                    inst = '%s:%s indexes the data of `%s` with that matrix\'s row count as stride' % (prog.config, f.name, sx.show(M))
+                    where = '%s:%s' % (f.file, sx.line(x) or sx.line(s_))
+                    if ok:
+                        rep.holds('R10.8', inst, where, 'index `%s`' % sx.show(ix))
+                    else:
+                        rep.violated('R10.8', inst, where, 'index `%s` does not multiply by %s->rows: for matrices with more rows than the layout uses the wrong coefficients are read' % (sx.show(ix), sx.show(M)),
+                                     key='%s:%s' % (f.name, sx.show(ix)))
+    return n
+
+
 def check(rep, prog, tier):
+    r10_7(rep, prog)
+    r10_8(rep, prog)
     r10_6(rep, prog)
     r10_1(rep, prog)
     r10_2(rep, prog)
